@@ -196,6 +196,8 @@ fn record_facts(st: &mut Stats, f: &Facts, h: &History) {
     st.add("amends", f.amends);
     st.add("readds", f.readds);
     st.add("reads", f.reads);
+    st.add("reads/made_after_every_operation", f.reads_after_every_op);
+    st.add("reads/content_decoded_and_compared", f.read_contents_checked);
     st.add("rebuilds", f.rebuilds);
     st.add("silent_leaves", f.silent_leaves);
     st.add("silent_replenish", f.silent_replenish);
@@ -558,6 +560,7 @@ pub fn witnesses() -> Vec<(&'static str, &'static str, History)> {
         gen_start: 0,
         wrap_ok: false,
         max_rounds: 0,
+        read_every: None,
     };
     vec![
         (
